@@ -97,11 +97,6 @@ impl Compiler {
             .into());
         }
 
-        if self.has_no_gc {
-            let line = self.current_line(span);
-            self.current.emit_a(OpCode::ExitNoGc, 0, 0, 0, line);
-        }
-
         if let Some(expr) = expr {
             let reg = self.alloc_register()?;
             self.compile_expr(expr, reg)?;
@@ -119,6 +114,8 @@ impl Compiler {
                     .emit_a(OpCode::CloseUpvals, from_reg, 0, 0, line);
             }
 
+            // the @no_gc region ends only after the returned expression has been evaluated
+            self.emit_exit_no_gc(span);
             let line = self.current_line(span);
             self.current.emit_a(OpCode::Return, reg, 0, 0, line);
             self.free_register(reg);
@@ -136,9 +133,19 @@ impl Compiler {
                     .emit_a(OpCode::CloseUpvals, from_reg, 0, 0, line);
             }
 
+            self.emit_exit_no_gc(span);
             self.emit_return0(span);
         }
         Ok(())
+    }
+
+    /// ExitNoGc for a `return` inside a @no_gc function; emitted directly before the Return
+    /// instruction so that the whole returned expression still runs inside the region.
+    fn emit_exit_no_gc(&mut self, span: Span) {
+        if self.has_no_gc {
+            let line = self.current_line(span);
+            self.current.emit_a(OpCode::ExitNoGc, 0, 0, 0, line);
+        }
     }
 
     pub fn compile_typed_return(
@@ -153,10 +160,6 @@ impl Compiler {
                 self.source.clone(),
             )
             .into());
-        }
-
-        if self.has_no_gc {
-            self.emit_a(OpCode::ExitNoGc, 0, 0, 0, span);
         }
 
         if let Some(e) = expr {
@@ -174,6 +177,7 @@ impl Compiler {
                 self.emit_a(OpCode::CloseUpvals, from_reg, 0, 0, span);
             }
 
+            self.emit_exit_no_gc(span);
             self.emit_a(OpCode::Return, reg, 0, 0, span);
             self.free_register(reg);
         } else {
@@ -188,6 +192,7 @@ impl Compiler {
                 self.emit_a(OpCode::CloseUpvals, from_reg, 0, 0, span);
             }
 
+            self.emit_exit_no_gc(span);
             self.emit_a(OpCode::Return0, 0, 0, 0, span);
         }
 
